@@ -162,7 +162,7 @@ func (o *Out) Finish() {
 		if err := os.WriteFile(filepath.Join(o.Flags.Out, name), []byte(sb.String()), 0o644); err != nil {
 			panic(err)
 		}
-		shards = append(shards, shardInfo{File: name, Index: o.idx[lo:hi]})
+		shards = append(shards, shardInfo{File: name, Index: append([]int{}, o.idx[lo:hi]...)})
 	}
 	df, err := os.Create(filepath.Join(o.Flags.Out, "descs.jsonl"))
 	if err != nil {
